@@ -3,9 +3,10 @@ import chan_common as cc
 
 def run(tier, seed):
     return cc.run_check("C10", tier, seed,
-        mc_cfgs=(["ChanMC_c10.cfg", "EventHold:EventHold.cfg"], ["ChanMC_c10.cfg", "ChanMC_c10t.cfg", "EventHold:EventHold.cfg"]),
-        mutant_cfgs=("EventHold:EventHoldMutant.cfg",),
-        mc_actions_by_module={"EventHold": ("RecvFulfil", "RecvCS", "RecvRAA", "Handle", "Refuse", "ForgetLands", "PersistManager", "Crash")},
+        mc_cfgs=(["ChanMC_c10.cfg", "EventHold:EventHold.cfg", "StaleReconcile:StaleReconcile.cfg"], ["ChanMC_c10.cfg", "ChanMC_c10t.cfg", "EventHold:EventHold.cfg", "StaleReconcile:StaleReconcile.cfg"]),
+        mutant_cfgs=("EventHold:EventHoldMutant.cfg", "StaleReconcile:StaleReconcileMutant.cfg"),
+        mc_actions_by_module={"EventHold": ("RecvFulfil", "RecvCS", "RecvRAA", "Handle", "Refuse", "ForgetLands", "PersistManager", "Crash"),
+                              "StaleReconcile": ("Resolve", "Crash")},
         profiles=[("crash", 2, 200), ("crashcross", 2, 300), ("crash", 3, 80)],
         thorough_profiles=[("crash", 2, 2000), ("crashcross", 2, 2500), ("crash", 3, 800)],
         families=[("inflight", 250), ("stalehold", 200), ("staletwo", 200), ("evhold", 250), ("fwdlate", 60), ("chainsettle", 80)],
